@@ -2567,6 +2567,10 @@ class SSHConnection(SSHPacketHandler, asyncio.Protocol):
         if self._auth: # pragma: no cover
             self._auth.cancel()
 
+        # Restrictions captured from a key or certificate presented in
+        # an earlier request apply to that credential only
+        cast(SSHServerConnection, self).reset_key_options()
+
         self._auth = lookup_server_auth(cast(SSHServerConnection, self),
                                              username, method, packet)
 
@@ -6844,6 +6848,12 @@ class SSHServerConnection(SSHConnection):
             authorized_keys = read_authorized_keys(authorized_keys)
 
         self._authorized_client_keys = authorized_keys
+
+    def reset_key_options(self) -> None:
+        """Forget options of a previously presented key or certificate"""
+
+        self._key_options = {}
+        self._cert_options = None
 
     def get_key_option(self, option: str, default: object = None) -> object:
         """Return option from authorized_keys
